@@ -80,6 +80,22 @@ func eolToLF(s []byte) []byte {
 	return out
 }
 
+// crToLF maps every CR to LF without pairing it with a following LF. It is the
+// comparison map for a document whose line endings are all bare CRs: such an input
+// contains no CRLF, so a CR LF in its output is a copied CR followed by a line ending
+// the renderer generated - two line endings, not one.
+func crToLF(s []byte) []byte {
+	out := make([]byte, 0, len(s))
+	for i := 0; i < len(s); i++ {
+		if s[i] == '\r' {
+			out = append(out, '\n')
+		} else {
+			out = append(out, s[i])
+		}
+	}
+	return out
+}
+
 func hasPrefixAt(s []byte, i int, p string) bool {
 	if i+len(p) > len(s) {
 		return false
